@@ -22,8 +22,25 @@ def main():
         for i, shard in job['shards']:
             try:
                 r = mod.run_shard(shard, job['tier'], job['seed'])
-            except Exception:  # noqa: BLE001  a crashing shard is inconclusive, never a verdict
-                sys.stderr.write('shard %r crashed:\n%s\n' % (shard, traceback.format_exc()))
+            except Exception as exc:  # noqa: BLE001
+                tb = traceback.format_exc()
+                sys.stderr.write('shard %r crashed:\n%s\n' % (shard, tb))
+                # where was the exception raised? An exception raised by the LIBRARY at a place where the harness (which
+                # runs clean on the unchanged tree) expected none is an observation about the library; a bug of the
+                # harness itself only makes the shard inconclusive
+                t = exc.__traceback__
+                inner = None
+                while t is not None:
+                    inner = t.tb_frame.f_code.co_filename
+                    t = t.tb_next
+                in_library = bool(inner) and (os.sep + 'musicxml' + os.sep) in inner and (os.sep + 'mxverif' + os.sep) not in inner
+                if in_library:
+                    r = {'evaluations': 1, 'distinct_nontrivial': 0, 'samples': [], 'counters': {'shards_crashed_in_library': 1},
+                         'violations': [{'sig': {'kind': 'library-raised-where-the-monitor-expected-none',
+                                                 'exc': type(exc).__name__, 'where': os.path.basename(inner)},
+                                         'case': {'shard': shard}, 'detail': {'traceback': tb[-1500:]}}]}
+                    out.write(json.dumps([i, r], default=str) + '\n')
+                    out.flush()
                 continue
             out.write(json.dumps([i, r], default=str) + '\n')
             out.flush()
